@@ -34,11 +34,11 @@ PRELUDE = """(define (box-cycle n) (let ((first (box 0))) (let loop ((i 1) (prev
 (define (chain-base b depth) (let loop ((b b) (d 0)) (if (< d depth) (loop (unbox b) (+ d 1)) (list d b))))"""
 
 KINDS = ["channels", "channels-via-map", "channels-via-apply", "mutex-counter", "global-assignment", "collectors",
-         "exit-during-stop", "box-chains", "spawn-tree", "assign-then-tell", "assigners-vs-collectors"]
+         "exit-during-stop", "box-chains", "spawn-tree", "assign-then-tell", "assigners-vs-collectors", "spawn-during-assignment", "handled-errors"]
 # which property a wrong *result* of a finished program speaks about
 OWNER = {"channels": "C16", "channels-via-map": "C16", "channels-via-apply": "C16", "exit-during-stop": "C16",
          "collectors": "C15", "mutex-counter": "C15", "global-assignment": "C15", "box-chains": "C15",
-         "spawn-tree": "C15", "assign-then-tell": "C15", "assigners-vs-collectors": "C15"}
+         "spawn-tree": "C15", "assign-then-tell": "C15", "assigners-vs-collectors": "C15", "spawn-during-assignment": "C15", "handled-errors": "C15"}
 
 
 def gen_program(r, workers, n, kind=None):
@@ -169,6 +169,65 @@ def gen_program(r, workers, n, kind=None):
         L.append("(verif-emit (map thread-join! ts))\n(verif-emit (list %s))" % " ".join("a%d" % i for i in range(na)))
         exp.append("(L" + "".join(" i:%d" % (m - 1) for i in range(na)) + "".join(" i:%d" % i for i in range(workers - na)) + ")")
         exp.append("(L" + "".join(" i:%d" % (m - 1) for i in range(na)) + ")")
+    elif kind == "handled-errors":
+        # threads whose every third iteration raises an error inside a primitive called from a compiled function, caught by
+        # a handler in the same loop, and which then carry on reading a global that another thread keeps assigning while a
+        # third collects: a thread that leaves a primitive through its error path must be back among the running threads
+        L.append("""(define shared 0)
+(define table (hash 'present 1))
+(define (risky i v)
+  (if (= 0 (modulo i 3))
+      (let ((k (modulo (quotient i 3) 5)))
+        (cond ((= k 0) (vector-ref v (+ 10 i)))
+              ((= k 1) (string->symbol i))
+              ((= k 2) (hash-ref table 'missing))
+              ((= k 3) (string-append "a" i))
+              (else (list-tail (list 1 2) 7))))
+      (vector-ref v 0)))
+(define (worker id n)
+  (let ((v (vector id 1 2)))
+    (let loop ((i 0) (caught 0) (seen 0))
+      (if (< i n)
+          (loop (+ i 1)
+                (+ caught (with-handler (lambda (e) 1) (begin (risky i v) 0)))
+                (if (>= shared seen) shared -1000000))
+          (list id caught (>= seen 0))))))
+(define (assigner n) (let loop ((i 1)) (if (<= i n) (begin (set! shared i) (box-cycle 2) (loop (+ i 1))) 'a)))
+(define (collector n) (let loop ((i 0)) (if (< i n) (begin (box-cycle 4) (when (= 0 (modulo i 5)) (#%verif-full-gc)) (loop (+ i 1))) 'c)))""")
+        L.append("(define threads (map (lambda (id) (spawn-native-thread (lambda () (worker id %d)))) (range 0 %d)))" % (n * 3, workers))
+        L.append("(define ta (spawn-native-thread (lambda () (assigner %d))))\n(define tc (spawn-native-thread (lambda () (collector %d))))" % (n, min(n, 50)))
+        L.append("(verif-emit (map thread-join! threads))\n(verif-emit (list (thread-join! ta) (thread-join! tc)))\n(verif-emit shared)")
+        exp.append("(L" + "".join(" (L i:%d i:%d #t)" % (i, n) for i in range(workers)) + ")")
+        exp.append('(L y:"a" y:"c")')
+        exp.append("i:%d" % n)
+    elif kind == "spawn-during-assignment":
+        # a setter thread performs one (set! g r) per request and acknowledges it; the main thread spawns a child *while* the
+        # assignment may be in progress, waits for the acknowledgement and only then lets the child read g: the assignment
+        # completed before the child was told to read, so the child must see it (a thread being created during a
+        # world-stopping update must not start from a stale global table)
+        rounds = n * 2
+        L.append("""(define g 0)
+(define go (channels/new))
+(define ack (channels/new))
+(define (spin k) (if (= k 0) 0 (spin (- k 1))))
+(define setter (spawn-native-thread (lambda () (let loop () (let ((r (channel/recv (channels-receiver go)))) (when (>= r 0) (set! g r) (channel/send (channels-sender ack) r) (loop)))))))
+(define (busy id n) (let loop ((i 0)) (if (< i n) (begin (box-cycle 3) (loop (+ i 1))) id)))
+(define others (map (lambda (id) (spawn-native-thread (lambda () (busy id %d)))) (range 0 %d)))
+(define (one-round r)
+  (let ((check (channels/new)))
+    (channel/send (channels-sender go) r)
+    (spin (modulo (* r 7) 60))
+    (let ((child (spawn-native-thread (lambda () (channel/recv (channels-receiver check)) g))))
+      (channel/recv (channels-receiver ack))
+      (channel/send (channels-sender check) #t)
+      (if (equal? (thread-join! child) r) 0 1))))
+(define stale (let loop ((r 1) (bad 0)) (if (<= r %d) (loop (+ r 1) (+ bad (one-round r))) bad)))
+(channel/send (channels-sender go) -1)
+(thread-join! setter)
+(verif-emit (map thread-join! others))
+(verif-emit stale)
+(verif-emit g)""" % (rounds, max(0, workers - 2), rounds))
+        exp += ["(L" + "".join(" i:%d" % i for i in range(max(0, workers - 2))) + ")", "i:0", "i:%d" % rounds]
     else:  # exit-during-stop: short-lived threads finishing while the main thread keeps collecting
         rounds = max(2, n // 20)
         L.append("""(define (short id) (box-cycle 4) (list 'bye id))
@@ -208,7 +267,7 @@ SYNC_COUNTERS = ("STOP_THE_WORLD", "STOP_THE_WORLD_FINISHED", "SCANS_OF_OTHER_TH
 
 
 def programs(tier):
-    nprog = 55 if tier == "quick" else 660
+    nprog = 65 if tier == "quick" else 715
     r = core.rng("C16")     # the same workload for both properties
     progs = []
     for i in range(nprog):
@@ -223,7 +282,7 @@ def run(prop, tier):
     rep = core.Reporter(prop, tier)
     progs = programs(tier)
     rep.coverage["rule"] = (
-        "generated programs with 1..8 native threads (11 kinds, see module docstring) x configurations {JIT on/off, top level / "
+        "generated programs with 1..8 native threads (13 kinds, see module docstring) x configurations {JIT on/off, top level / "
         "compiled as a module, forced full collections every k-th allocation, seeded delays at the handshake's suspension "
         "points}; distinct by (program, config); non-trivial = >= 2 threads ran and a stopper inspected another thread's "
         "state at least once in that run (H-sync counter SCANS_OF_OTHER_THREADS)")
@@ -284,6 +343,12 @@ def run(prop, tier):
             u = res["units"][0]
             if prop == "C15":
                 evs = res.get("events") or []
+                if cnt.get("RAN_WHILE_PUBLISHED"):
+                    ev = [e for e in evs if e[2] == "!running-while-published"]
+                    site = ev[0][5] if ev else "?"
+                    rep.violation("C15 a thread is %s while its context is still published as parked (%s)" % (site, ctx),
+                                  "kind=%s config=%s workers=%d events=%s" % (kind, cname, workers, json.dumps(ev[:3])[:500]), replay)
+                    continue
                 if cnt.get("RAN_WHILE_SCANNED"):
                     ev = [e for e in evs if e[2] == "!ran-while-inspected"]
                     site = ev[0][5] if ev else "?"
@@ -457,9 +522,9 @@ def replay(path, prop="C16"):
         r = res["r"]
         cnt = r.get("counters") or {}
         good = (r["status"] == "ok" and r["units"] and r["units"][0].get("emits") == d["expected"]
-                and not cnt.get("RAN_WHILE_SCANNED") and not cnt.get("FREED_SLOT_ACCESS"))
+                and not cnt.get("RAN_WHILE_SCANNED") and not cnt.get("RAN_WHILE_PUBLISHED") and not cnt.get("FREED_SLOT_ACCESS"))
         print("attempt %d: status=%s emits=%s monitors=%s %s" % (k, r["status"], (r["units"] or [{}])[0].get("emits"),
-              {x: cnt.get(x) for x in ("RAN_WHILE_SCANNED", "FREED_SLOT_ACCESS", "STOP_THE_WORLD", "SCANS_OF_OTHER_THREADS")}, r.get("stderr_tail", "")[-300:]))
+              {x: cnt.get(x) for x in ("RAN_WHILE_SCANNED", "RAN_WHILE_PUBLISHED", "FREED_SLOT_ACCESS", "STOP_THE_WORLD", "SCANS_OF_OTHER_THREADS")}, r.get("stderr_tail", "")[-300:]))
         if not good:
             ok = False
             break
